@@ -21,6 +21,7 @@ import time
 import shutil
 
 VERIF = os.path.dirname(os.path.dirname(os.path.abspath(__file__)))
+CASE_SALT = [0]      # set per shard by lv.worker (see props/common.strategy)
 NSHARDS = int(os.environ.get('VERIF_SHARDS', '16'))
 
 
